@@ -61,9 +61,13 @@ class Loader(yaml.SafeLoader):
             A processed node representing the document.
         """
         node = cast(yaml.Node, super().get_single_node())
-        if node is not None:
-            self.__reject_recursion(node, ())
-            node = self.__process_node(node, type(self).document_type)
+        if node is None:
+            # An empty document is a null value, which is only
+            # acceptable if the document type allows for it.
+            mark = self.get_mark()
+            node = yaml.ScalarNode('tag:yaml.org,2002:null', '', mark, mark)
+        self.__reject_recursion(node, ())
+        node = self.__process_node(node, type(self).document_type)
         return node
 
     def get_node(self) -> yaml.Node:
